@@ -7,7 +7,7 @@
 package cmd
 
 //@ pred clientWF() := client != nil && client.Conf != nil && client.Idx != nil && client.Head != nil && client.Refs != nil && client.Ignore != nil && gLogger != nil
-//@     && store.wfIndex(client.Idx) && store.wfRefs(client.Refs) && store.wfConfig(client.Conf)
+//@     && store.wfIndex(client.Idx) && store.wfRefs(client.Refs) && store.wfConfig(client.Conf) && store.wfIgnore(client.Ignore)
 //@     && (client.Head.Commit != nil ==> client.Head.Commit.Object != nil && len(client.Head.Commit.Tree) >= 20 && len(client.Head.Commit.Hash) >= 20)
 //@     && (client.Head.Commit == nil ==> forall i int :: 0 <= i && i < len(client.Refs.Heads) ==> client.Refs.Heads[i].Name != client.Head.Reference)
 
@@ -177,10 +177,14 @@ package cmd
 // a WalkFunc only looks at the commit it is given (the one closure passed in log.go prints it)
 //@ functype WalkFunc pure
 
+// stagedName(p): the name a file at p is staged under (its path relative to the current directory, slash-separated).
+// add is only ever called for files whose staged name is outside Goit's own directory (C17).
+//@ pred stagedName(p) := replaceAll(relPath(cwd(), p), "\\", "/")
 //@ func add
 //@   returns err
 //@   modifies store.Index.Entries, store.Index.Header, fs
 //@   requires index != nil && store.wfIndex(index)
+//@   requires [not-meta] {C17} !cwdFails() && !relFails(cwd(), path) ==> !hasPrefix(stagedName(path), ".goit/")
 //@   ensures [wf] {C04,C06} store.wfIndex(index)
 
 //@ func removeFromWorkingTree
